@@ -49,7 +49,9 @@ def run_graph(graph, roots, skip, workdir):
     det = {'expected_order': want, 'stderr': err[-800:], 'status': rc}
     if rc != 0 or 'Traceback' in err:
         return Violation('shell-failed', case, det)
-    m = re.search(r'=== checking for file inclusions \.\.\. (.*)\n', err)
+    # warnings of the filter (lines starting with ***) may be interleaved with the progress messages
+    err_clean = re.sub(r'^\*\*\* .*\n', '', re.sub(r'(\.\.\. )(?:\*\*\* .*\n)+', r'\1', err), flags=re.M)
+    m = re.search(r'=== checking for file inclusions \.\.\. (.*)\n', err_clean)
     listed = [x for x in m.group(1).split(', ') if x] if m else None
     progress = re.findall(r'^=== (\S+\.tex)$', err, re.M)
     if listed != want:
